@@ -99,6 +99,21 @@ type Options struct {
 	GenesisTime uint64
 	// TwoAlgorithms: the protocol lists sha2-256 and sha2-512 and the alphabet is syms.AlphabetTwoAlgorithms
 	TwoAlgorithms bool
+	// RequestPolicies: the applier's parser is built with an anchor origin validator and an anchor time validator that refuse
+	// everything - request-time policies of a node, which the fold of anchored operations must not depend on
+	RequestPolicies bool
+}
+
+type refuseOrigins struct{}
+
+func (refuseOrigins) Validate(origin interface{}) error {
+	return fmt.Errorf("anchor origin %v is not allowed by this node's request policy", origin)
+}
+
+type refuseTimes struct{}
+
+func (refuseTimes) Validate(from, until int64) error {
+	return fmt.Errorf("window %d-%d is not allowed by this node's request policy", from, until)
 }
 
 func Explore(r *core.Run, o Options) {
@@ -108,7 +123,11 @@ func Explore(r *core.Run, o Options) {
 		p, alphabet = syms.ProtoTwoAlgorithms(), syms.AlphabetTwoAlgorithms("EiAlphabetSuffix")
 	}
 	p.GenesisTime = o.GenesisTime
-	app := operationapplier.New(p, operationparser.New(p), doccomposer.New())
+	parser := operationparser.New(p)
+	if o.RequestPolicies {
+		parser = operationparser.New(p, operationparser.WithAnchorOriginValidator(refuseOrigins{}), operationparser.WithAnchorTimeValidator(refuseTimes{}))
+	}
+	app := operationapplier.New(p, parser, doccomposer.New())
 	r.Extra["alphabet_symbols"] = len(alphabet)
 	r.Extra["depth_bound"] = o.Depth
 	names := map[string]int{}
@@ -381,7 +400,7 @@ func merge(a, b map[string]any) map[string]any {
 
 func Run(r *core.Run) {
 	r.Rule = "BFS over the real OperationApplier.Apply: every symbol of the alphabet (operation type x failure class x key type x window class, own anchoring tuple and commitments each) " +
-		"from every reachable state (2 initial states), and a second alphabet under a protocol with both hash algorithms (operations under sha2-256, sha2-512 and mixtures, key re-use across algorithms), deduplicated on the canonical form of all 15 fields, not expanded past an accepted deactivate; every transition compared with the reference state machine; " +
+		"from every reachable state (2 initial states), and a second alphabet under a protocol with both hash algorithms (operations under sha2-256, sha2-512 and mixtures, key re-use across algorithms), and the first alphabet again through a parser with request-time policies that refuse every anchor origin and window, deduplicated on the canonical form of all 15 fields, not expanded past an accepted deactivate; every transition compared with the reference state machine; " +
 		"distinct = distinct canonical states; non-trivial = all (every state differs in at least one field)"
 	r.Assumptions = []string{"reference state machine ref/sidetree and reference patch semantics ref/patch written from the property statement",
 		"operations built and signed by the harness generator; the applier is driven directly (reveal/commitment matching is the processor's job)",
@@ -397,6 +416,14 @@ func Run(r *core.Run) {
 	for k, v := range r.Extra {
 		if old, ok := first[k]; ok {
 			r.Extra["two_algorithms_"+k] = v
+			r.Extra[k] = old
+		}
+	}
+	// ... and once more with an applier whose parser carries request-time policies that refuse every origin and every window
+	Explore(r, Options{Model: true, Depth: core.Pick(r, 2, 3), SigTypes: []string{"Ed25519"}, RequestPolicies: true})
+	for k, v := range r.Extra {
+		if old, ok := first[k]; ok {
+			r.Extra["request_policies_"+k] = v
 			r.Extra[k] = old
 		}
 	}
